@@ -56,7 +56,7 @@ func runC06(c *Ctx) {
 		L.Check(len(bad) == 0 && len(ws) > 0, "frame", r.label, "writes into the receiver", c.P.Pos(r.F.Pos()),
 			fmt.Sprintf("%d write site(s), all residue stores", len(ws)), fmt.Sprintf("writes other than residue stores (or none at all): %v (%d sites)", bad, len(ws)))
 	}
-	L.Floor("frame", 4, "four in-place transforms")
+	L.Floor("frame", 2, "four in-place transforms (floor = half of the instances on the pinned tree: a clean-up may merge instances, a rule that sees nothing must still fail)")
 	// Unalign is pure
 	c.purityObligations("input-unmodified", []purityTarget{{"align", "*seqbag", "Unalign", []int{0}}})
 }
@@ -147,7 +147,7 @@ func (c *Ctx) checkComplementTable() {
 	}
 	sort.Strings(bad)
 	L.Check(inv, "complement-table", fn, "involution", c.P.Pos(t.Pos), "table[table[x]] == x for every key except U/u", "not an involution: "+strings.Join(bad, " "))
-	L.Floor("complement-table", 36, "35 rows + involution")
+	L.Floor("complement-table", 18, "35 rows + involution (floor = half of the instances on the pinned tree: a clean-up may merge instances, a rule that sees nothing must still fail)")
 	c.checkTableImmutable("align", "complement_nuc_mapping")
 }
 
